@@ -111,7 +111,7 @@ struct ResourceLayout : Family {
 			Line a = mkline("world", "archive");
 			a.set("k", k).set("kind", clm ? "clm" : "vol").set("file", quoteToken(randName(r, 1, 5, false) + (clm ? ".clm" : ".vol")));
 			p.world.push_back(a);
-			size_t nm = static_cast<size_t>(r.below(6));
+			size_t nm = static_cast<size_t>(r.chance(1, 20) ? r.range(17, 30) : r.below(6));
 			for (size_t i = 0; i < nm; ++i) { Line m = mkline("world", "amember"); m.set("ar", k).set("name", quoteToken(r.chance(4, 5) ? pick() : randName(r, 1, 8, false))).set("cseed", hex64(r.next())).set("len", r.below(300)); p.world.push_back(m); }
 		}
 		size_t nops = static_cast<size_t>(r.range(6, thorough ? 40 : 24));
